@@ -73,10 +73,11 @@ CHECKS = {
         ref="§3/C06",
     ),
     "C07": dict(
-        technique="exception-flow analysis over enumerated paths (fallible-operation table, guards, handlers) up to thread entry points",
+        technique="exception-flow analysis over enumerated paths (fallible-operation table, guards, handlers) up to thread entry points; value-origin tracing of the root; lock-set rule for fields cleared by stop hooks",
         text="Static analysis. No exception kind of the fallible-operation table (unguarded map lookups keyed by history-"
         "controlled values; add-watch / read / stat failures) escapes a library thread body that processes filesystem input; "
-        "root-deletion branches emit exactly one DirDeletedEvent(root) and stop; absorbed failures keep the triggering record. "
+        "root-deletion branches emit exactly one DirDeletedEvent(root) and stop, and the root keeps its spelling from watch.path to the map key "
+        "the emitter compares with; a field the stopping thread clears is read once in the thread body; absorbed failures keep the triggering record. "
         "Completeness of the fallible table is assumed.",
         ref="§3/C07",
     ),
@@ -142,33 +143,39 @@ CHECKS = {
         ref="§3/C16",
     ),
     "C17": dict(
-        technique="lock-set analysis over enumerated paths incl. explicit acquire/release; monitor-discipline and re-validation rules",
+        technique="lock-set analysis over enumerated paths incl. explicit acquire/release; monitor-discipline, re-validation and delay-elapsed (linear-form) rules",
         text="Static analysis of DelayedQueue: every access to the deque is under the queue lock on every path, explicit "
         "acquires are released on every path, the wait predicate covers every notifier, writers notify, no sleep under the "
         "lock, the head is re-validated by identity after re-acquiring, an index is used for deletion only inside the critical "
         "section that found it, closed implies end marker, FIFO container operations. "
-        "'Never early' (clock arithmetic) is not decided.",
+        "'Never early' is decided in its structural part: after the last blocking operation on the path to the hand-out a comparison "
+        "establishes insert time + delay - now <= 0 with a fresh reading of the clock put() stamps with; what the clock returns is not modelled.",
         ref="§3/C17",
     ),
     "C18": dict(
-        technique="monitor-discipline and check-then-act rules over enumerated paths; must-effect analysis of stop()",
+        technique="monitor-discipline, quiescence and check-then-act rules over enumerated paths; must-effect analysis of stop(); per-method contract tables decided on each method's own paths",
         text="Static analysis of the tricks' concurrency discipline: debouncer waits only in predicate loops and swaps the batch "
         "under the condition; stop flags are test-and-set under the lock; a flag tested outside its lock must have the guarded "
-        "action re-validated; stop() reaches debouncer.stop, child stop and both joins. Real child processes are not decided.",
+        "action re-validated or excluded by the debouncer holding its condition during the callback; the batch is handed over only after "
+        "a timed wait on the interval timed out; stop() reaches debouncer.stop, child stop and both joins; the watcher reports exactly "
+        "the child's exit; per-method contracts of the auto-restart trick (restart = stop, start, count; stop signals, polls, then signal 9; "
+        "kill_process signals the group) and the shell trick's running predicate. Real child processes are not decided.",
         ref="§3/C18",
     ),
     "C19": dict(
         technique="def-use decode-discipline rule over every event-constructor argument of the emitters",
         text="Static analysis. Every path-valued argument of an event constructed by the inotify emitter derives from "
         "_decode_path(native path) (or dirname of it, or the empty literal); _decode_path is conditional on the watch path type; "
-        "Path is normalised to str once; polling paths derive from join(root, entry.name). Round-tripping of undecodable names "
+        "Path is normalised to str once; polling paths derive from join(root, entry.name); the watch key carries the stored path itself "
+        "(str and bytes spellings are different watches). Round-tripping of undecodable names "
         "is a property of os.fsdecode and is trusted.",
         ref="§3/C19",
     ),
     "C20": dict(
         technique="path-sensitive effect summaries of code that cannot be imported here (Windows, FSEvents) vs contract tables; constant agreement",
         text="Static analysis of the Windows and FSEvents translators (parsed, never imported): per-action emission contracts, "
-        "the non-recursive FSEvents filter cannot be bypassed, and the inotify buffer decoder's header-size constants agree "
+        "inode bookkeeping, the three FSEvents predicates as truth tables, the non-recursive FSEvents filter cannot be bypassed, the wiring to "
+        "the native layer, and the inotify buffer decoder's header-size constants agree "
         "with the unpack format. Decoder round-trips for all record sequences are not decided.",
         ref="§3/C20",
     ),
